@@ -21,8 +21,8 @@ theorem others_kept (a : A) (x : Req) (hnd : (ids a.reqs).Nodup) (hx : x ∈ a.r
 theorem nlt_fill (lg lg' : Log) (n : Nat) (r : Rid) (inbox : List Pkt) (pc pc' : PC) (a : A) (k : Pid) (ans : Ans)
     (h : NLt lg n r { inbox := inbox, pc := pc } a) (hpc : ∀ p', remFor pc' p' = remFor pc p')
     (hact : ∀ pk grp, pc = .action pk grp → pc' = .action pk grp)
-    (hact2 : ∀ q', pc = .emit [.write none q'] → pc' = pc ∨ q'.id = k) (hwb' : wOK pc')
-    (hnd : (ids a.reqs).Nodup)
+    (hact2 : ∀ w q', (pc = .emit [.write w q'] ∨ pc = .emit [.link q'.id q'.id, .write w q']) → pc' = pc ∨ q'.id = k)
+    (hwb' : wOK pc') (hnd : (ids a.reqs).Nodup)
     (p : Pid) (cs : List Cell) (hX : (⟨p, r, .cells cs⟩ : Req) ∈ a.reqs) (hk : k ∈ openIds cs)
     (hrem0 : remFor pc p = []) (t : Tr lg lg' k) (hki : ∀ x ∈ inbox, x.id ≠ k)
     (hkr : ∀ y ∈ a.reqs, y.r = r → y.p ≠ p → k ∉ remFor pc y.p)
@@ -42,7 +42,7 @@ theorem nlt_fill (lg lg' : Log) (n : Nat) (r : Rid) (inbox : List Pkt) (pc pc' :
   have h1 : NLt lg' n r { inbox := inbox, pc := pc' } { a with reqs := updReq p (fillSt k ans) a.reqs } := by
     apply nlt_upd lg lg' n r inbox pc pc' a _ k h hnd ⟨p, r, .cells cs⟩ hX rfl
       (by simp [idsR, cellsOfSt, hk]) (fillSt k ans) rfl t hpc hact
-      (fun q' e => by rcases hact2 q' e with e1 | e1; exact Or.inl e1; exact Or.inr (Or.inr e1)) hwb' hki hkr ho
+      (fun w q' e => by rcases hact2 w q' e with e1 | e1; exact Or.inl e1; exact Or.inr (Or.inr e1)) hwb' hki hkr ho
     · rcases h.req _ hX rfl with hr | ⟨v, e1, _, _⟩
       rotate_left
       · simp only [RSt.cells.injEq] at e1; rw [e1] at hk; simp [openIds] at hk
@@ -77,12 +77,57 @@ theorem nlt_fill (lg lg' : Log) (n : Nat) (r : Rid) (inbox : List Pkt) (pc pc' :
   · intro j hj
     rw [d5 j hj]; exact readsOf_upd a.reqs p _ j
 
-/-- `Write(nil, in)` by thread `i`: the request answers itself -/
-theorem nlt_echo_self (lg lg' : Log) (n : Nat) (i : Rid) (inbox : List Pkt) (a : A) (q : Pkt)
-    (h : NLt lg n i { inbox := inbox, pc := .emit [.write none q] } a) (hnd : (ids a.reqs).Nodup)
+/-- a request of reader `i` that derived nothing (`cells []`) or was written itself (`direct`) gets its answer `ans`
+– itself (the echo `Write(nil, in)`, a refused write of the request packet) or the answer to the write of the request
+packet –: it and the complete requests behind it on reader `i` are answered -/
+theorem nlt_self_fill (lg lg' : Log) (n : Nat) (i : Rid) (inbox : List Pkt) (pc pc' : PC) (a : A) (P : Pid) (st0 : RSt)
+    (ans : Ans) (h : NLt lg n i { inbox := inbox, pc := pc } a) (hnd : (ids a.reqs).Nodup)
+    (hX : (⟨P, i, st0⟩ : Req) ∈ a.reqs) (hst0 : st0 = .cells [] ∨ ∃ w, st0 = .direct w)
+    (t : Tr lg lg' P) (hra : RA lg' P ans) (hpc : ∀ p', remFor pc' p' = remFor pc p') (hrem0 : remFor pc P = [])
+    (hact : ∀ pk grp, pc = .action pk grp → pc' = .action pk grp)
+    (hact2 : ∀ w q', (pc = .emit [.write w q'] ∨ pc = .emit [.link q'.id q'.id, .write w q']) → pc' = pc ∨ q'.id = P)
+    (hwb' : wOK pc') (hki : ∀ x ∈ inbox, x.id ≠ P)
+    (hkr : ∀ y ∈ a.reqs, y.r = i → y.p ≠ P → P ∉ remFor pc y.p)
+    (ho : ∀ id ∈ nlIdsT i { inbox := inbox, pc := pc } a, aget lg'.owner id = aget lg.owner id) :
+    ∃ ds : List (Pid × Ans), NLt lg' n i { inbox := inbox, pc := pc' } (afill a P ans).1 ∧
+      (afill a P ans).2 = ds.map (fun d => Ev.reply i d.2) ∧ (∀ d ∈ ds, RA lg' d.1 d.2) ∧
+      (a.reqs.filter (fun x => x.r = i)).map (·.p) =
+        ds.map (·.1) ++ ((afill a P ans).1.reqs.filter (fun x => x.r = i)).map (·.p) ∧
+      (∀ y ∈ (afill a P ans).1.reqs, y.r ≠ i → y ∈ a.reqs) ∧
+      (∀ j, j ≠ i → ((afill a P ans).1.reqs.filter (fun x => x.r = j)).map (·.p) =
+        (a.reqs.filter (fun x => x.r = j)).map (·.p)) ∧
+      (afill a P ans).1.wq = a.wq := by
+  have hf := findReq_of_mem a.reqs _ hnd hX
+  have h1 : NLt lg' n i { inbox := inbox, pc := pc' }
+      { a with reqs := updReq P (fun _ => RSt.cells [.filled ans]) a.reqs } := by
+    apply nlt_upd lg lg' n i inbox pc pc' a _ P h hnd ⟨P, i, st0⟩ hX rfl (by simp [idsR])
+      (fun _ => RSt.cells [.filled ans]) rfl t hpc hact
+      (fun w q' e => by rcases hact2 w q' e with e1 | e1; exact Or.inl e1; exact Or.inr (Or.inl e1)) hwb' hki hkr ho
+    · exact Or.inr ⟨ans, rfl, hra, by rw [hpc]; exact hrem0⟩
+    · intro e; cases e
+  have hf1 : findReq P (updReq P (fun _ => RSt.cells [.filled ans]) a.reqs) =
+      some ⟨P, i, .cells [.filled ans]⟩ := findReq_upd a.reqs P _ _ hf
+  obtain ⟨ds, d1, d2, d3, d4, d5, d6⟩ := nlt_afterFill lg' n i _ a _ P _ h1 hf1
+  have he : afill a P ans = afterFill a (updReq P (fun _ => RSt.cells [.filled ans]) a.reqs) P := by
+    rcases hst0 with e | ⟨w, e⟩ <;> subst e <;> simp only [afill, hf]
+  rw [he]
+  refine ⟨ds, d1, d2, d3, ?_, ?_, ?_, d6⟩
+  · rw [← d4]; exact (readsOf_upd a.reqs P _ i).symm
+  · apply others_kept a ⟨P, i, st0⟩ hnd hX (fun _ => RSt.cells [.filled ans])
+    intro y hy
+    simp only [afterFill, hf1] at hy
+    have hrep : reply (.cells [.filled ans]) = some ans := by
+      simp [reply, cellVal, hasNil, joinCells, cellsOf, join]
+    rw [hrep] at hy; exact (flushR_sublist i _).subset hy
+  · intro j hj
+    rw [d5 j hj]; exact readsOf_upd a.reqs P _ j
+
+/-- `Write(nil, in)` / a refused `Write(w, in)` by thread `i`: the request answers itself -/
+theorem nlt_echo_self (lg lg' : Log) (n : Nat) (i : Rid) (inbox : List Pkt) (a : A) (w : Option Wid) (q : Pkt)
+    (h : NLt lg n i { inbox := inbox, pc := .emit [.write w q] } a) (hnd : (ids a.reqs).Nodup)
     (hX : (⟨q.id, i, .cells []⟩ : Req) ∈ a.reqs)
     (hx : LogExt lg lg' q.id) (hecho : aget lg'.echo q.id = some q.pay) (hki : ∀ x ∈ inbox, x.id ≠ q.id)
-    (ho : ∀ id ∈ nlIdsT i { inbox := inbox, pc := .emit [.write none q] } a, aget lg'.owner id = aget lg.owner id) :
+    (ho : ∀ id ∈ nlIdsT i { inbox := inbox, pc := .emit [.write w q] } a, aget lg'.owner id = aget lg.owner id) :
     ∃ ds : List (Pid × Ans), NLt lg' n i { inbox := inbox, pc := .idle } (afill a q.id (.pay q.pay)).1 ∧
       (afill a q.id (.pay q.pay)).2 = ds.map (fun d => Ev.reply i d.2) ∧ (∀ d ∈ ds, RA lg' d.1 d.2) ∧
       (a.reqs.filter (fun x => x.r = i)).map (·.p) =
@@ -90,35 +135,14 @@ theorem nlt_echo_self (lg lg' : Log) (n : Nat) (i : Rid) (inbox : List Pkt) (a :
       (∀ y ∈ (afill a q.id (.pay q.pay)).1.reqs, y.r ≠ i → y ∈ a.reqs) ∧
       (∀ j, j ≠ i → ((afill a q.id (.pay q.pay)).1.reqs.filter (fun x => x.r = j)).map (·.p) =
         (a.reqs.filter (fun x => x.r = j)).map (·.p)) ∧
-      (afill a q.id (.pay q.pay)).1.wq = a.wq := by
-  have hf := findReq_of_mem a.reqs _ hnd hX
-  have h1 : NLt lg' n i { inbox := inbox, pc := .idle }
-      { a with reqs := updReq q.id (fun _ => RSt.cells [.filled (.pay q.pay)]) a.reqs } := by
-    apply nlt_upd lg lg' n i inbox _ .idle a _ q.id h hnd ⟨q.id, i, .cells []⟩ hX rfl (by simp [idsR])
-      (fun _ => RSt.cells [.filled (.pay q.pay)]) rfl (tr_of_ext lg lg' q.id hx) (fun _ => rfl)
-      (fun _ _ e => by cases e)
-      (fun q' e => by
-        simp only [PC.emit.injEq, List.cons.injEq, Op.write.injEq, true_and, and_true] at e
-        exact Or.inr (Or.inl (by rw [e]))) trivial hki
-      (fun y _ _ _ hm => by simp [remFor, remOps] at hm) ho
-    · exact Or.inr ⟨q.pay, rfl, hecho, rfl⟩
-    · intro e; cases e
-  have hf1 : findReq q.id (updReq q.id (fun _ => RSt.cells [.filled (.pay q.pay)]) a.reqs) =
-      some ⟨q.id, i, .cells [.filled (.pay q.pay)]⟩ := findReq_upd a.reqs q.id _ _ hf
-  obtain ⟨ds, d1, d2, d3, d4, d5, d6⟩ := nlt_afterFill lg' n i _ a _ q.id _ h1 hf1
-  have he : afill a q.id (.pay q.pay) =
-      afterFill a (updReq q.id (fun _ => RSt.cells [.filled (.pay q.pay)]) a.reqs) q.id := by
-    simp only [afill, hf]
-  rw [he]
-  refine ⟨ds, d1, d2, d3, ?_, ?_, ?_, d6⟩
-  · rw [← d4]; exact (readsOf_upd a.reqs q.id _ i).symm
-  · apply others_kept a ⟨q.id, i, .cells []⟩ hnd hX (fun _ => RSt.cells [.filled (.pay q.pay)])
-    intro y hy
-    simp only [afterFill, hf1] at hy
-    have hrep : reply (.cells [.filled (.pay q.pay)]) = some (.pay q.pay) := by
-      simp [reply, cellVal, hasNil, joinCells, cellsOf, join]
-    rw [hrep] at hy; exact (flushR_sublist i _).subset hy
-  · intro j hj
-    rw [d5 j hj]; exact readsOf_upd a.reqs q.id _ j
+      (afill a q.id (.pay q.pay)).1.wq = a.wq :=
+  nlt_self_fill lg lg' n i inbox _ .idle a q.id (.cells []) (.pay q.pay) h hnd hX (Or.inl rfl)
+    (tr_of_ext lg lg' q.id hx) (ra_echo lg' q.id q.pay hecho) (fun _ => rfl) rfl (fun _ _ e => by cases e)
+    (fun w' q' e => by
+      rcases e with e | e
+      · simp only [PC.emit.injEq, List.cons.injEq, Op.write.injEq, and_true] at e
+        exact Or.inr (by rw [e.2])
+      · simp at e) trivial hki
+    (fun y _ _ _ hm => by simp [remFor, remOps] at hm) ho
 
 end Uniflow.FlowM
